@@ -47,15 +47,16 @@ type accessOb struct {
 }
 
 type lockAnalysis struct {
-	w        *World
-	runnerT  *types.Named
-	jobT     *types.Named
-	taskT    *types.Named
-	mxName   string
-	wgName   string
-	guardMap []types.Type // guarded map types
-	mutable  map[string]bool
-	fieldsOf map[string]bool // all "T.f" of guarded types
+	w         *World
+	reachMemo map[[2]ssa.Instruction]bool
+	runnerT   *types.Named
+	jobT      *types.Named
+	taskT     *types.Named
+	mxName    string
+	wgName    string
+	guardMap  []types.Type // guarded map types
+	mutable   map[string]bool
+	fieldsOf  map[string]bool // all "T.f" of guarded types
 
 	origin        map[ctxKey]ctxOrigin
 	work          []ctxKey
@@ -670,6 +671,11 @@ func (la *lockAnalysis) step(k ctxKey, ins ssa.Instruction, st lockState, defers
 		// runs at exit, see RunDefers
 	case *ssa.RunDefers:
 		for i := len(defers) - 1; i >= 0; i-- {
+			// only a defer that can have been registered on a path to this exit runs here (an early
+			// return in front of `Lock(); defer Unlock()` does not unlock)
+			if !instrDominates(defers[i], x) && !la.reaches(defers[i], x) {
+				continue
+			}
 			st = la.call(k, defers[i], &defers[i].Call, st, emit, "deferred at ")
 		}
 	case *ssa.Call:
@@ -992,4 +998,21 @@ func (la *lockAnalysis) sortedAccess() []*accessOb {
 		return a.what < b.what
 	})
 	return out
+}
+
+// reaches: some control-flow path leads from instruction a to instruction b (same function).
+func (la *lockAnalysis) reaches(a, b ssa.Instruction) bool {
+	k := [2]ssa.Instruction{a, b}
+	if v, ok := la.reachMemo[k]; ok {
+		return v
+	}
+	if la.reachMemo == nil {
+		la.reachMemo = map[[2]ssa.Instruction]bool{}
+	}
+	saved := nilGuardEdge
+	nilGuardEdge = nil // plain reachability
+	v := PathQuery{Fn: a.Parent(), Start: []ssa.Instruction{a}, Target: func(x ssa.Instruction) bool { return x == b }}.Find().Found
+	nilGuardEdge = saved
+	la.reachMemo[k] = v
+	return v
 }
